@@ -7,7 +7,7 @@
 (*   invocation  [iss, sub, aud, cmd, arg, exp, hook]                      *)
 (*               aud = "None" when absent; exp = -1 when absent;           *)
 (*               arg is a point of the argument space ArgPoints;           *)
-(*               hook in {"none","id","c0","c1","c2","empty"}: which       *)
+(*               hook in {"none","id","add","c0","c1","c2","empty"}: which *)
 (*               argument hook ExecutionAllowedWithArgsHook is given       *)
 (*               (cK returns the arguments of point K, "empty" returns an  *)
 (*               empty argument map = point 3)                             *)
@@ -58,7 +58,7 @@ None  == "None"
 ValidAt(nbf, exp, t) == (exp = -1 \/ t < exp) /\ (nbf = -1 \/ t > nbf)
 OnBound(nbf, exp, t) == (exp # -1 /\ t = exp) \/ (nbf # -1 /\ t = nbf)
 
-HookArg(inv) == CASE inv.hook \in {"none", "id"} -> inv.arg
+HookArg(inv) == CASE inv.hook \in {"none", "id", "add"} -> inv.arg      \* "add": a clone completed with a key no policy looks at
                   [] inv.hook = "c0" -> 0
                   [] inv.hook = "c1" -> 1
                   [] inv.hook = "c2" -> 2
